@@ -13,11 +13,11 @@ HARNESS = dict(
     name="ring", flavour="asan",
     # ring_buffer.c compiled from /repo with every atomic access a schedule point
     extra_srcs=[(os.path.join(cbuild.REPO, "source", "ring_buffer.c"),
-                 ["-include", os.path.join(cbuild.VERIF, "harness", "verif_atomics.h"), "-DUSE_SIMD_ENCODING"], "ring_buffer_sched")],
+                 ["-include", os.path.join(cbuild.VERIF, "harness", "ring_atomics.h"), "-DUSE_SIMD_ENCODING"], "ring_buffer_sched")],
 )
 TRUSTED = ["hand model lean/AwsVerif/Model/Ring.lean (tied by this correspondence run only)",
            "translator gen/ring_gen.py for aws_ring_buffer_is_valid / aws_ring_buffer_check_atomic_ptr (regenerated from ring_buffer.inl every run)",
-           "harness/verif_atomics.h: force-included macros turning __atomic_* builtins into schedule points"]
+           "harness/ring_atomics.h: force-included macros turning __atomic_load_n / __atomic_store_n into schedule points that also report the memory order"]
 ASSUMPTIONS = ["atomics are sequentially consistent (x86-64); one acquirer thread, one releaser releasing in acquisition order",
                "minimum_size <= requested_size for acquire_up_to (API precondition)"]
 RULE = ("op sequences over one ring (sizes 1..64): acq/upto with k releases injected between the acquirer's tail load "
@@ -122,7 +122,8 @@ def gen_cases(rng, tier):
 def oracle(case, lines):
     """direct oracle on the implementation's output only: replays offsets/lengths and checks the
     property clauses (inside ring, pairwise disjoint from outstanding, size rule, empty => success)"""
-    errs = []
+    errs = ["harness monitor: " + l for l in lines if l.startswith("P MONITOR clean_up")]
+    lines = [l for l in lines if not l.startswith("P MONITOR clean_up")]
     n = None
     out = []  # FIFO of (off,len)
     li = 0
@@ -137,6 +138,9 @@ def oracle(case, lines):
             l = nxt()
             if l != "P valid=1":
                 errs.append(f"{op}: aws_ring_buffer_is_valid() does not hold in this reachable state: `{l}`")
+            l = nxt()
+            if l != f"P empty={0 if out else 1}":
+                errs.append(f"{op}: aws_ring_buffer_is_empty() reports `{l}` with {len(out)} buffer(s) outstanding")
         if t[0] == "init":
             n = int(t[1]); out = []
             valid_line()
@@ -145,6 +149,8 @@ def oracle(case, lines):
             if out:
                 out.pop(0)
             l = nxt()
+            if l is not None and l.startswith("W relorder="):
+                l = nxt()
             if l != f"P outstanding={len(out)}":
                 errs.append(f"outstanding count after rel: {l}")
             valid_line()
@@ -178,6 +184,9 @@ def oracle(case, lines):
             off = int(w.split("off=")[1])
             if li < len(lines) and lines[li].startswith("P MONITOR"):
                 errs.append("harness monitor: " + nxt())
+            bl = nxt()
+            if bl != "P belongs=100":
+                errs.append(f"{op}: aws_ring_buffer_buf_belongs_to_pool(granted, foreign, straddling the end) = `{bl}`, expected 1,0,0")
             if not (lo <= ln <= hi) or ln == 0:
                 errs.append(f"{op}: returned length {ln} not in [{lo},{hi}]")
             if off + ln > n:
